@@ -62,11 +62,16 @@ Record rule := {
   r_product : N;                       (* 0 none, 1 windows, 2 linux *)
   r_dets : list (str * list ditem);    (* detections: name -> AND-linked map of field: value *)
   r_conds : list str;                  (* condition strings *)
-  r_fields : list str }.               (* the rule's `fields` attribute *)
+  r_fields : list str;                 (* the rule's `fields` attribute *)
+  r_attrs : list (str * str) }.        (* custom attributes set by transformations *)
 
 (* ---------- pipelines ---------- *)
 Inductive rcond := RAlways | RProduct (p : N) | RState (k v : str).
-Inductive trans := TSetState (k v : str) | TFieldMap (m : list (str * str)) | TFail | TFile (d : N) | TVars.
+Inductive trans := TSetState (k v : str) | TFieldMap (m : list (str * str)) | TFail | TFile (d : N) | TVars
+                 | TSetField (l : list str) | TAddField (l : list str) | TRemoveField (l : list str)
+                 | TSetAttr (k v : str) | TSetProduct (p : N).
+   (* set_field / add_field / remove_field / set_custom_attribute / change_logsource: they change the rule
+      only; the rule gets copies of the configured values (sigma/processing/transformations/fields.py, rule.py) *)
    (* TFile d: file_placeholders transformation reading external source d;
       TVars: value_placeholders, resolving every placeholder from the pipeline variables *)
 Definition vars := list (str * list str).    (* pipeline variables: name -> value list (a scalar is one value) *)
@@ -138,7 +143,7 @@ Definition mapped_fields (m : list (str * str)) (r : rule) : list (str * str) :=
 Definition map_rule (m : list (str * str)) (r : rule) : rule :=
   {| r_bad := r_bad r; r_mods := r_mods r; r_product := r_product r;
      r_dets := map (fun nd => (fst nd, map (map_item m) (snd nd))) (r_dets r); r_conds := r_conds r;
-     r_fields := map (fun f => getd f f m) (r_fields r) |}.
+     r_fields := map (fun f => getd f f m) (r_fields r); r_attrs := r_attrs r |}.
 
 (* placeholder replacement (BasePlaceholderTransformation.apply_value): every value with a placeholder
    becomes the list of replacement values *)
@@ -149,7 +154,7 @@ Definition expand_item (vs : list str) (d : ditem) : ditem :=
 Definition expand_rule (vs : list str) (r : rule) : rule :=
   {| r_bad := r_bad r; r_mods := r_mods r; r_product := r_product r;
      r_dets := map (fun nd => (fst nd, map (expand_item vs) (snd nd))) (r_dets r); r_conds := r_conds r;
-     r_fields := r_fields r |}.
+     r_fields := r_fields r; r_attrs := r_attrs r |}.
 
 (* ValueListPlaceholderTransformation: every placeholder is looked up in the variables of the pipeline
    the item's owner link points to; an unknown name raises SigmaValueError *)
@@ -160,7 +165,14 @@ Definition ph_missing (pv : vars) (r : rule) : bool :=
 Definition expand_rule_vars (pv : vars) (r : rule) : rule :=
   {| r_bad := r_bad r; r_mods := r_mods r; r_product := r_product r;
      r_dets := map (fun nd => (fst nd, map (expand_item_vars pv) (snd nd))) (r_dets r); r_conds := r_conds r;
-     r_fields := r_fields r |}.
+     r_fields := r_fields r; r_attrs := r_attrs r |}.
+
+Definition with_fields (r : rule) (l : list str) : rule :=
+  {| r_bad := r_bad r; r_mods := r_mods r; r_product := r_product r; r_dets := r_dets r; r_conds := r_conds r;
+     r_fields := l; r_attrs := r_attrs r |}.
+(* list.remove: the first occurrence, nothing when absent *)
+Fixpoint remove_first (x : str) (l : list str) : list str :=
+  match l with [] => [] | y :: r => if str_eqb x y then r else y :: remove_first x r end.
 
 (* one processing item on one rule: what it reads from / writes to the pipeline object its owner
    link points to, and what it does to the rule.  vals: what _get_values() of this transformation
@@ -190,6 +202,19 @@ Definition item_step (rd : pstate) (pv : vars) (r : rule) (it : item) (vals : ou
     | TVars =>
         {| is_match := true; is_upd := fun ps => ps;
            is_res := if ph_missing pv r then inr E_Value else inl (expand_rule_vars pv r) |}
+    | TSetField l => {| is_match := true; is_upd := fun ps => ps; is_res := inl (with_fields r l) |}
+    | TAddField l => {| is_match := true; is_upd := fun ps => ps; is_res := inl (with_fields r (r_fields r ++ l)) |}
+    | TRemoveField l =>
+        {| is_match := true; is_upd := fun ps => ps;
+           is_res := inl (with_fields r (fold_left (fun fs x => remove_first x fs) l (r_fields r))) |}
+    | TSetAttr k v =>
+        {| is_match := true; is_upd := fun ps => ps;
+           is_res := inl {| r_bad := r_bad r; r_mods := r_mods r; r_product := r_product r; r_dets := r_dets r;
+                            r_conds := r_conds r; r_fields := r_fields r; r_attrs := set_assoc k v (r_attrs r) |} |}
+    | TSetProduct p =>
+        {| is_match := true; is_upd := fun ps => ps;
+           is_res := inl {| r_bad := r_bad r; r_mods := r_mods r; r_product := p; r_dets := r_dets r;
+                            r_conds := r_conds r; r_fields := r_fields r; r_attrs := r_attrs r |} |}
     end
   else {| is_match := false; is_upd := fun ps => ps; is_res := inl r |}.
 
@@ -328,7 +353,8 @@ Fixpoint set_nth {A} (n : nat) (x : A) (l : list A) : list A :=
   | _ :: r, O => x :: r
   | y :: r, S k => y :: set_nth k x r
   end.
-Definition fmt_name (f : N) : str := match f with 0 => lit "default" | 1 => lit "test" | _ => lit "state" end.
+Definition fmt_name (f : N) : str :=
+  match f with 0 => lit "default" | 1 => lit "test" | 2 => lit "state" | _ => lit "fields" end.
 Definition backend_name : str := lit "Test backend".
 Definition merge_vars (a b : vars) : vars := fold_left (fun m kv => set_assoc (fst kv) (snd kv) m) b a.
 (* {**backend_pp.vars, **user.vars, **format_pp.vars}, then .update(backend_<option>), ["backend"], ["output_format"] *)
@@ -475,11 +501,18 @@ Fixpoint render (ne : bool) (cls : N) (neg : bool) (c : ctree) (tp : N -> tpls) 
   end.
 
 (* finalize_query_<format> of the test backend *)
-Definition finalize (fmt : N) (st : list (str * str)) (q : str) : str :=
+Definition product_name (p : N) : str :=
+  match p with 0 => lit "None" | 1 => lit "windows" | _ => lit "linux" end.
+(* format 3 ("fields", defined by the harness like a backend with a field-list clause): the query followed by the
+   processed rule's field list, custom attributes and log source product *)
+Definition finalize (fmt : N) (st : list (str * str)) (r : rule) (q : str) : str :=
   match fmt with
   | 0 => q
   | 1 => lit "[ " ++ q ++ lit " ]"
-  | _ => lit "index=" ++ getd (lit "default") (lit "index") st ++ lit " (" ++ q ++ lit ")"
+  | 2 => lit "index=" ++ getd (lit "default") (lit "index") st ++ lit " (" ++ q ++ lit ")"
+  | _ => q ++ lit " | fields=" ++ join (lit ",") (r_fields r) ++ lit " attrs="
+         ++ join (lit ",") (map (fun kv => fst kv ++ lit ":" ++ snd kv) (r_attrs r))
+         ++ lit " product=" ++ product_name (r_product r)
   end.
 
 (* the loop over rule.detection.parsed_condition in convert_rule *)
@@ -514,7 +547,7 @@ Definition conv_with (E : env) (w : world) (L : nat) (lfmt : N) (bk : backend) (
   | inl r' =>
       let st := ps_state (w_ps w3 L) in
       let '(w4, qs) := conv_conds E (b_cls bk) (r_dets r') w3 (r_conds r') in
-      (w4, obind qs (fun l => Ok (map (finalize fmt st) l)))
+      (w4, obind qs (fun l => Ok (map (finalize fmt st r') l)))
   end.
 Definition conv_rule_raw (E : env) (w : world) (b : nat) (bk : backend) (fmt : N) (r : rule)
   : world * outcome (list str) :=
